@@ -7,7 +7,7 @@ from typing import Optional
 
 from ..astutil import controlling_atoms, u
 from ..cfg import flow
-from ..grammar import grammar
+from ..grammar import grammar, installed_dialects
 from ..model import AnalysisError, Cls, Fn, Prog, loc
 from ..report import Ctx
 from ..safety import scan_function
@@ -57,23 +57,49 @@ ALLOW = {
 
 
 def grammar_recheck(tag: Optional[str]) -> tuple[bool, str]:
+    """Re-check, on every run, the grammar fact an allow entry rests on - against the positional / nullability relation of EVERY
+    installed dialect grammar (child sets alone do not carry "never empty" or "never last")."""
     if tag is None:
         return True, ""
     g = grammar("ansi")
+    dialects = installed_dialects()
+
+    def never_empty(*types: str) -> tuple[bool, str]:
+        bad, unknown = [], 0
+        for d in dialects:
+            gd = grammar(d)
+            for t in types:
+                if t not in gd.types():
+                    continue
+                e = gd.can_be_empty(t)
+                if e:
+                    bad.append(f"{d}:{t}")
+                elif e is None:
+                    unknown += 1
+        return not bad, (f"can be empty in {bad[:4]}" if bad else f"{'/'.join(types)} has at least one code child in all {len(dialects)} dialect grammars"
+                         + (f" ({unknown} class(es) without a readable grammar)" if unknown else ""))
+
     if tag == "statement-wraps-one":
         ch = g.children("statement")
-        return len(ch) > 10 and "keyword" not in ch, f"statement -> {len(ch)} alternative statement types, no sibling tokens"
+        ok, why = never_empty("statement")
+        firsts = {d: grammar(d).edge_types("statement", last=False) for d in dialects}
+        kw = sorted(d for d, ts in firsts.items() if "keyword" in ts or "symbol" in ts)
+        return len(ch) > 10 and "keyword" not in ch and ok and not kw, f"statement -> {len(ch)} alternative statement types, no sibling tokens; {why}" + (f"; a token can stand first in {kw[:4]}" if kw else "")
     if tag == "reference-nonempty":
-        return "table_reference" in g.types() and "object_reference" in g.types(), "table_reference / object_reference present in the grammar"
+        ok, why = never_empty("table_reference", "object_reference", "file_reference")
+        return ok and "table_reference" in g.types() and "object_reference" in g.types(), why
     if tag == "alias-nonempty":
-        ch = g.children("alias_expression")
-        return bool(ch), f"alias_expression -> {sorted(ch)[:6]}"
+        return never_empty("alias_expression")
     if tag == "fee-nonempty":
         ch = g.children("from_expression_element")
-        return "table_expression" in ch, f"from_expression_element -> {sorted(ch)}"
+        ok, why = never_empty("from_expression_element")
+        return ok and "table_expression" in ch, why
     if tag == "merge-source-not-last":
         ch = g.children("merge_statement")
-        return "merge_match" in ch and "join_on_condition" in ch, f"merge_statement -> {sorted(ch)}"
+        lasts = {d: grammar(d).edge_types("merge_statement", last=True) for d in dialects if "merge_statement" in grammar(d).types()}
+        bad = sorted(d for d, ts in lasts.items() if "bracketed" in ts or "table_reference" in ts or "alias_expression" in ts)
+        return "merge_match" in ch and "join_on_condition" in ch and not bad, (
+            f"the USING source can stand last in {bad[:4]}" if bad else f"no merge_statement of {len(lasts)} dialect grammars can end in its source (last child types: {sorted(set().union(*lasts.values()))})")
     return False, f"unknown re-check {tag}"
 
 
